@@ -1,0 +1,13 @@
+//go:build verif
+
+// Contracts for deductive verification (comment-only; read by /verif/govc, never compiled into the product).
+
+package utils
+
+//@ func StringSliceContains(s []string, str string) (r bool)
+//@   property C05
+//@   opt strings=uf
+//@   pure
+//@   ensures r <==> exists i int :: 0 <= i && i < len(s) && s[i] == str
+//@   loop 1 invariant #i >= -1 && #i < len(s)
+//@   loop 1 invariant forall k int :: 0 <= k && k <= #i ==> s[k] != str
